@@ -12,6 +12,7 @@ from static_frame.core.container_util import apply_binary_operator
 from static_frame.core.container_util import axis_window_items
 from static_frame.core.container_util import index_from_optional_constructor
 from static_frame.core.container_util import index_many_concat
+from static_frame.core.container_util import index_to_hashable
 from static_frame.core.container_util import index_many_set
 from static_frame.core.container_util import matmul
 from static_frame.core.container_util import pandas_to_numpy
@@ -2554,7 +2555,7 @@ class SeriesHE(Series):
 
     def __hash__(self) -> int:
         if not hasattr(self, '_hash'):
-            self._hash = hash(tuple(self.index)) # iteration yields label tuples for hierarchical indices
+            self._hash = hash(index_to_hashable(self._index))
         return self._hash
 
     def to_series(self) -> Series:
